@@ -101,7 +101,7 @@ def parse_vc(path):
                     if not m:
                         raise SystemExit(f"{path}:{ln}: bad //@subst")
                     cur.subst.append((m.group(1), m.group(2), m.group(3) or "#N?"))
-                elif word in ("sig", "loop", "closure", "before", "after", "wraptail"):
+                elif word in ("sig", "loop", "closure", "before", "after", "wraptail", "armstart", "armend"):
                     blk = Block(word, rest, path, ln)
                     cur.blocks.append(blk)
                 else:
@@ -510,6 +510,21 @@ def emit_fn(out, entry, mode, stats, canary=False):
             if r is None:
                 raise LostAnchor(f"{entry.id}: snippet {m.group(1)!r} not found")
             pos = r[0] if b.kind == "before" else r[1] + 1
+            edits.append((pos, pos, "\n" + b.text().rstrip("\n") + "\n", vc_origin(b)))
+        # armstart / armend: ghost text at the start / end of the block of the match arm whose pattern is the snippet
+        for b in entry.block("armstart") + entry.block("armend"):
+            m = re.match(r'"(.*)"\s*(?:#(\d+))?$', b.arg)
+            if not m:
+                raise SystemExit(f"{b.file}:{b.line}: //@{b.kind} needs a quoted arm pattern")
+            r = find_snippet(sf, bo + 1, last, m.group(1), int(m.group(2) or 1))
+            if r is None:
+                raise LostAnchor(f"{entry.id}: arm {m.group(1)!r} not found")
+            j = r[1] + 1
+            while toks[j].kind in (WS, COMMENT):
+                j += 1
+            if toks[j].text != "{":
+                raise LostAnchor(f"{entry.id}: arm {m.group(1)!r} is not followed by a block")
+            pos = j + 1 if b.kind == "armstart" else br[j]
             edits.append((pos, pos, "\n" + b.text().rstrip("\n") + "\n", vc_origin(b)))
         # subst (declared normalisations); `$n` holes stand for the whole content of a bracket pair and stay verbatim
         for frm, to, tag in entry.subst:
